@@ -62,6 +62,18 @@ def oracle_number(mod, n):
     return None
 
 
+def oracle_retained(mod, a, b):
+    """an encoding is a value: a result kept by the caller is not changed by a later call"""
+    ra = pyexc(mod.encode_number, a)
+    if ra[0] != 'ok':
+        return None
+    snap = bytes(ra[1])
+    pyexc(mod.encode_number, b)
+    if bytes(ra[1]) != snap:
+        return f"encode_number({a}) returned {list(snap)}, but after encode_number({b}) the same result object reads {list(bytes(ra[1]))}"
+    return None
+
+
 def oracle_bytes(mod, bs):
     d = pyexc(mod.decode_number, bytes(bs))
     if d != ('ok', positional_py(bs)):
@@ -103,6 +115,11 @@ def run(tier):
         w = oracle_bytes(mod, bs)
         if w:
             C.violation(w, dict(unit='number_encoding_utils.decode_number', input=dict(bytes=bs)))
+            break
+    for a, b in zip(nums[::7], nums[3::7]):
+        w = oracle_retained(mod, a, b) if 0 <= a < INT_MAX and 0 <= b < INT_MAX else None
+        if w:
+            C.violation(w, dict(unit='number_encoding_utils.encode_number', input=dict(n=a, then=b)))
             break
     C.stream('oracle.number', len(nums), len([n for n in nums if 0 <= n < INT_MAX]), sample=dict(n=nums[len(nums) // 2]))
     C.stream('oracle.bytes', len(bss), len({tuple(b) for b in bss if b}), sample=dict(bytes=bss[len(bss) // 2]))
@@ -154,3 +171,21 @@ def run(tier):
                 if w:
                     return C.violation(w, dict(unit='number_encoding_utils.decode_number', input=dict(bytes=list(t) + tail)))
     return C.finish(search=search)
+
+
+def replay(path):
+    import json
+    r = json.load(open(path))
+    inp = r.get('input')
+    if not inp:
+        return replay_broken(r, 'C07')
+    s = Scratch()
+    mod = load_leaf(s.src, 'eolib.data.number_encoding_utils')
+    if 'bytes' in inp:
+        w = oracle_bytes(mod, inp['bytes'])
+    elif 'then' in inp:
+        w = oracle_retained(mod, inp['n'], inp['then'])
+    else:
+        w = oracle_number(mod, inp['n'])
+    print("replay:", w or "property holds on this input")
+    return 1 if w else 0
